@@ -320,6 +320,25 @@ def tie_witness():
     return [canon_minor(s, with_major=False) for s in sols]
 
 
+def novel_names():
+    """three functional variants no allele carries, homozygous: both copies are *1 plus three additions; every name and diplotype
+    string of the solution objects (the additions are listed in them) is part of the result"""
+    from aldy.minor import estimate_minor
+    from aldy.major import estimate_major
+    from aldy.solutions import CNSolution
+    g = toy_gene([[121, "A>C", "rs1", "X1Y"], [137, "A>T", "rs4", "X2Y"], [150, "A>G", "rs5", "X3Y"], [162, "A>C", "rs6", "X4Y"]])
+    tab = [((m.pos, m.op), 20) for m in sorted(g.random_mutations)]
+    cov = table_coverage(g, tab)
+    majs = estimate_major(g, cov, CNSolution(g, 0, ["1", "1"]), "any")
+    sols = estimate_minor(g, cov, majs, "any")
+    out = []
+    for s in sols:
+        n = range(len(s.solution))
+        out.append({"minor": canon_minor(s), "major_names": [s.get_major_name(i) for i in n], "minor_names": [s.get_minor_name(i) for i in n],
+                    "major_diplotype": s.get_major_diplotype(), "minor_diplotype": s.get_minor_diplotype(), "str": s._solution_nice()})
+    return out
+
+
 # ====================================================================================================================
 # worker: one fresh process per hash seed
 # ====================================================================================================================
@@ -351,6 +370,8 @@ def worker_main(spec_path):
                     r = run_genotype_job(j, d)
                 elif j["kind"] == "tie":
                     r = tie_witness()
+                elif j["kind"] == "novel-names":
+                    r = novel_names()
                 elif j["kind"] == "stages":
                     r = stage_results(j["db"], j["bam"], j["profile"], j["genome"])
                 elif j["kind"] == "evidence":
@@ -596,6 +617,7 @@ def all_jobs(world, quick=True):
             jobs.append(world.job(["C"], smp, fmt))
     jobs.append({"kind": "stages", "db": world.db["A"], "bam": world.bam["s1"], "profile": world.profile, "genome": world.build})
     jobs.append({"kind": "tie"})
+    jobs.append({"kind": "novel-names"})
     for smp in ("s1", "s2"):
         jobs.append({"kind": "evidence", "sample": smp, "db": world.db["A"], "bam": world.bam[smp], "profile": world.profile, "genome": world.build})
     return jobs
@@ -1239,7 +1261,7 @@ def compare_seeds(chk, outs, label, world_seed):
             chk.evaluations += 1
             diff = same(base[key]["value"], v["value"], tol=SCORE_RESOLUTION)
             if diff:
-                inp = "exact-tie-witness" if j["kind"] == "tie" else label
+                inp = "exact-tie-witness" if j["kind"] == "tie" else "novel-additions-names" if j["kind"] == "novel-names" else label
                 chk.fail("hash-seed", {"input": inp, "job": j["kind"], "genes": ",".join(j.get("genes", [])),
                                        "difference": classify_difference(j, base[key]["value"], v["value"])},
                          {"world_seed": world_seed, "job": j, "seeds": [0, seed]}, {"seed 0": str(base[key]["value"])[:600]},
@@ -1378,7 +1400,7 @@ def replay(chk, path):
                 outs = {}
                 for sd in case["seeds"]:
                     sp = os.path.join(d, f"spec_{sd}.json")
-                    json.dump({"scratch": d, "out": os.path.join(d, f"out_{sd}.json"), "jobs": [case["job"] if case["job"]["kind"] == "tie" else
+                    json.dump({"scratch": d, "out": os.path.join(d, f"out_{sd}.json"), "jobs": [case["job"] if case["job"]["kind"] in ("tie", "novel-names") else
                                [j for j in all_jobs(world, False) if job_key(j) == job_key(case["job"])][0]]}, open(sp, "w"))
                     spawn_worker(sp, sd, common.REPO).communicate(timeout=900)
                     outs[0 if sd == case["seeds"][0] else sd] = json.load(open(os.path.join(d, f"out_{sd}.json")))
